@@ -113,26 +113,37 @@ Proof.
 Qed.
 
 (* ---------- the simulation relation *)
-Definition key (c : case) (b : bool) (k : cid) : cid := scid c (b, k, 0%N).
+Definition key (c : case) (b : nat) (k : cid) : cid := scid c (b, k, 0%N).
 
 Lemma scid_key c g : scid c g = key c (h_store g) (h_cid g).
 Proof. destruct g as [[b k] tok]. reflexivity. Qed.
 
-Lemma key_eq c b k b' k' :
-  N.eqb (key c b' k') (key c b k) = Bool.eqb b' b && (store_simple c b || N.eqb k' k).
+Lemma enc_inj b : forall b' x x', enc b x = enc b' x' -> b = b' /\ x = x'.
 Proof.
-  unfold key, scid, store_simple, h_store, h_cid. cbn [fst snd].
-  destruct (N.eqb_spec k' k) as [->|Hne];
-    destruct b, b', (c_simple0 c), (c_simple1 c); cbn [Bool.eqb andb orb];
-    try apply N.eqb_refl; try reflexivity; apply N.eqb_neq; lia.
+  induction b as [|b IH]; intros [|b'] x x'; cbn [enc]; intros E.
+  - split; auto. lia.
+  - exfalso. lia.
+  - exfalso. lia.
+  - assert (E' : enc b x = enc b' x') by lia. destruct (IH _ _ _ E') as [-> ->]. auto.
+Qed.
+
+Lemma key_eq c b k b' k' :
+  N.eqb (key c b' k') (key c b k) = Nat.eqb b' b && (store_simple c b || N.eqb k' k).
+Proof.
+  unfold key, scid, h_store, h_cid. cbn [fst snd].
+  destruct (Nat.eqb_spec b' b) as [->|Hb]; cbn [andb].
+  - destruct (store_simple c b); cbn [orb]; [apply N.eqb_refl|].
+    destruct (N.eqb_spec k' k) as [->|Hk]; [apply N.eqb_refl|].
+    apply N.eqb_neq. intros E. apply enc_inj in E. lia.
+  - apply N.eqb_neq. intros E. apply enc_inj in E. tauto.
 Qed.
 
 Definition Rel (c : case) (w : world) (S : qset) : Prop :=
   NoDup S /\ (forall b, st_inv (w_get w b)) /\ (forall b, st_simple (w_get w b) = store_simple c b) /\
   forall b k t, st_holds (w_get w b) k t = q_mem (t, key c b k) S.
 
-Lemma w_get_set w b b' s : w_get (w_set w b s) b' = if Bool.eqb b' b then s else w_get w b'.
-Proof. destruct w, b, b'; reflexivity. Qed.
+Lemma w_get_set w b b' s : w_get (w_set w b s) b' = if Nat.eqb b' b then s else w_get w b'.
+Proof. reflexivity. Qed.
 
 Lemma Rel_seteq c w S1 S2 : Rel c w S1 -> NoDup S2 -> qseteq S1 S2 -> Rel c w S2.
 Proof.
@@ -148,10 +159,10 @@ Lemma Rel_add c w S b k0 t0 :
 Proof.
   intros (H1 & H2 & H3 & H4). destruct (st_add_ok (w_get w b) k0 t0 (H2 b)) as (A1 & A2 & A3).
   split; [now apply q_add_NoDup|split; [|split]].
-  - intros b'. rewrite w_get_set. destruct (Bool.eqb_spec b' b) as [->|]; auto.
-  - intros b'. rewrite w_get_set. destruct (Bool.eqb_spec b' b) as [->|]; auto. now rewrite A2.
+  - intros b'. rewrite w_get_set. destruct (Nat.eqb_spec b' b) as [->|]; auto.
+  - intros b'. rewrite w_get_set. destruct (Nat.eqb_spec b' b) as [->|]; auto. now rewrite A2.
   - intros b' k t. rewrite w_get_set, q_mem_add, quad_eqb_pair, key_eq, <- H4.
-    destruct (Bool.eqb_spec b' b) as [->|]; simpl.
+    destruct (Nat.eqb_spec b' b) as [->|]; simpl.
     + rewrite A3. unfold same_ctx. rewrite H3. rewrite (andb_comm (triple_eqb t t0)). reflexivity.
     + now rewrite andb_false_r.
 Qed.
@@ -161,11 +172,11 @@ Lemma Rel_remove c w S b k0 p :
 Proof.
   intros (H1 & H2 & H3 & H4). destruct (st_remove_ok (w_get w b) k0 p (H2 b)) as (A1 & A2 & A3).
   split; [now apply q_remove_NoDup|split; [|split]].
-  - intros b'. rewrite w_get_set. destruct (Bool.eqb_spec b' b) as [->|]; auto.
-  - intros b'. rewrite w_get_set. destruct (Bool.eqb_spec b' b) as [->|]; auto. now rewrite A2.
+  - intros b'. rewrite w_get_set. destruct (Nat.eqb_spec b' b) as [->|]; auto.
+  - intros b'. rewrite w_get_set. destruct (Nat.eqb_spec b' b) as [->|]; auto. now rewrite A2.
   - intros b' k t. rewrite w_get_set, q_mem_remove, <- H4. cbn [fst snd].
     rewrite N.eqb_sym, key_eq.
-    destruct (Bool.eqb_spec b' b) as [->|]; simpl.
+    destruct (Nat.eqb_spec b' b) as [->|]; simpl.
     + rewrite A3. unfold same_ctx. rewrite H3. rewrite (andb_comm (matches p t)). reflexivity.
     + now rewrite andb_false_r, andb_true_r.
 Qed.
@@ -173,10 +184,10 @@ Qed.
 Lemma Rel_init c : Rel c (w_init c) [].
 Proof.
   split; [constructor|split; [|split]].
-  - intros [|]; unfold w_init, st_init; simpl; [destruct (c_simple1 c)|destruct (c_simple0 c)]; simpl;
+  - intros [|[|b]]; unfold w_get, w_init, st_init; [destruct (c_simple0 c)|destruct (c_simple1 c)|]; simpl;
       try apply sm_inv_empty; apply MemInv_empty.
-  - intros [|]; unfold w_init, st_init; simpl; [destruct (c_simple1 c)|destruct (c_simple0 c)]; reflexivity.
-  - intros [|] k [[x y] z]; unfold w_init, st_init; simpl; [destruct (c_simple1 c)|destruct (c_simple0 c)]; reflexivity.
+  - intros [|[|b]]; unfold w_get, w_init, st_init, store_simple; [destruct (c_simple0 c)|destruct (c_simple1 c)|]; reflexivity.
+  - intros [|[|b]] k [[x y] z]; unfold w_get, w_init, st_init; [destruct (c_simple0 c)|destruct (c_simple1 c)|]; reflexivity.
 Qed.
 
 (* what a graph shows is an enumeration of its mathematical content *)
@@ -295,16 +306,24 @@ Qed.
 Lemma holds_empty c t : mem_holds mem_empty c t = false.
 Proof. destruct t as [[x y] z]. reflexivity. Qed.
 
+Lemma fresh_add_all l : forall m,
+  MemInv m ->
+  MemInv (fresh_add m l) /\
+  forall c t, mem_holds (fresh_add m l) c t = mem_holds m c t || (N.eqb c fresh_cid && memb teq t l).
+Proof.
+  unfold fresh_add. induction l as [|t0 r IH]; simpl; intros m Hi.
+  - split; auto. intros c t. now rewrite andb_false_r, orb_false_r.
+  - destruct (mem_add_ok m fresh_cid t0 Hi) as [H1 H2]. destruct (IH _ H1) as [H3 H4]. split; auto.
+    intros c t. rewrite H4, H2. unfold teq.
+    destruct (N.eqb c fresh_cid), (triple_eqb t t0), (mem_holds m c t); reflexivity.
+Qed.
+
 Lemma fresh_add_ok l : forall m,
   MemInv m ->
   MemInv (fresh_add m l) /\
   forall t, mem_holds (fresh_add m l) fresh_cid t = mem_holds m fresh_cid t || memb teq t l.
 Proof.
-  unfold fresh_add. induction l as [|t0 r IH]; simpl; intros m Hi.
-  - split; auto. intros t. now rewrite orb_false_r.
-  - destruct (mem_add_ok m fresh_cid t0 Hi) as [H1 H2]. destruct (IH _ H1) as [H3 H4]. split; auto.
-    intros t. rewrite H4, H2, N.eqb_refl. simpl. unfold teq.
-    destruct (triple_eqb t t0), (mem_holds m fresh_cid t); reflexivity.
+  intros m Hi. destruct (fresh_add_all l m Hi) as [H1 H2]. split; auto. intros t. now rewrite H2, N.eqb_refl.
 Qed.
 
 Lemma fresh_two l1 l2 :
@@ -358,7 +377,7 @@ Proof.
             In t (sdiff teq (sp_content S (scid c a)) (sp_content S (scid c b')))).
   { intros a b' t. rewrite filter_In, tsdiff_In, negb_true_iff, (g_triples_all a t HR).
     rewrite <- (g_contains_spec b' t HR). destruct (g_contains w b' (pat_of t)); intuition congruence. }
-  unfold g_bin, spec_bin. destruct b.
+  unfold g_bin, g_bin_mem, spec_bin. destruct b.
   - destruct (fresh_two (g_triples w g all_pat) (g_triples w h all_pat)) as [Hn Hin]. split; auto.
     intros t. rewrite Hin, tsunion_In, (Hg t), (Hh t). tauto.
   - destruct (fresh_one (filter (fun x => negb (g_contains w h (pat_of x))) (g_triples w g all_pat))) as [Hn Hin].
@@ -373,13 +392,83 @@ Proof.
     rewrite !Hsub. tauto.
 Qed.
 
+(* ---------- the result of a binary operator is a new graph in a new store *)
+Definition Fresh (w : world) (nx : nat) : Prop := forall b, nx <= b -> w_get w b = SMem mem_empty.
+
+Lemma Fresh_init c : Fresh (w_init c) 2.
+Proof. intros [|[|b]] Hb; try lia. reflexivity. Qed.
+
+Lemma fresh_add_inv l m : MemInv m -> MemInv (fresh_add m l).
+Proof. intros H. apply fresh_add_all, H. Qed.
+
+Lemma fresh_add_other l m k t : MemInv m -> k <> fresh_cid -> mem_holds (fresh_add m l) k t = mem_holds m k t.
+Proof.
+  intros Hi Hk. rewrite (proj2 (fresh_add_all l m Hi)). apply N.eqb_neq in Hk. rewrite Hk. apply orb_false_r.
+Qed.
+
+Lemma g_bin_mem_inv b w g h : MemInv (g_bin_mem b w g h).
+Proof. unfold g_bin_mem. destruct b; repeat apply fresh_add_inv; apply MemInv_empty. Qed.
+
+Lemma g_bin_mem_other b w g h k t : k <> fresh_cid -> mem_holds (g_bin_mem b w g h) k t = false.
+Proof.
+  intros Hk. unfold g_bin_mem.
+  destruct b; repeat (rewrite fresh_add_other; [|repeat apply fresh_add_inv; apply MemInv_empty|exact Hk]);
+    apply holds_empty.
+Qed.
+
+Lemma store_simple_new c nx : 2 <= nx -> store_simple c nx = false.
+Proof. destruct nx as [|[|n]]; try lia. reflexivity. Qed.
+
+Lemma Rel_bin c w S nx b g h :
+  Rel c w S -> 2 <= nx -> Fresh w nx ->
+  Rel c (w_set w nx (SMem (g_bin_mem b w g h)))
+      (sp_add_all (scid c (nx, fresh_cid, 0%N)) (spec_bin b (sp_content S (scid c g)) (sp_content S (scid c h))) S).
+Proof.
+  intros HR Hnx HF. pose proof HR as (H1 & H2 & H3 & H4).
+  pose proof (g_bin_ok c w S b g h HR) as [Hn He].
+  destruct (sp_add_all_ok (scid c (nx, fresh_cid, 0%N))
+              (spec_bin b (sp_content S (scid c g)) (sp_content S (scid c h))) S H1) as [A1 A2].
+  pose proof (store_simple_new c nx Hnx) as Hs.
+  split; [exact A1|split; [|split]].
+  - intros b'. rewrite w_get_set. destruct (Nat.eqb_spec b' nx) as [->|]; auto. apply g_bin_mem_inv.
+  - intros b'. rewrite w_get_set. destruct (Nat.eqb_spec b' nx) as [->|]; auto.
+  - intros b' k t. rewrite w_get_set. apply bool_iff. rewrite q_mem_In, A2. cbn [fst snd].
+    change (scid c (nx, fresh_cid, 0%N)) with (key c nx fresh_cid).
+    rewrite <- (N.eqb_eq (key c b' k)), key_eq, Hs. cbn [orb].
+    destruct (Nat.eqb_spec b' nx) as [->|Hne]; cbn [andb st_holds].
+    + assert (Hold : q_mem (t, key c nx k) S = false).
+      { rewrite <- H4, (HF nx (le_n _)). apply holds_empty. }
+      rewrite <- q_mem_In, Hold. destruct (N.eqb_spec k fresh_cid) as [->|Hk].
+      * destruct (mem_triples_exact _ fresh_cid all_pat (g_bin_mem_inv b w g h)) as [_ Hin].
+        rewrite <- (He t). unfold g_bin, fresh_content. rewrite Hin, matches_all. intuition congruence.
+      * rewrite (g_bin_mem_other b w g h k t Hk). intuition congruence.
+    + rewrite H4, q_mem_In. intuition congruence.
+Qed.
+
+(* operations change the store of their graph only *)
+Lemma g_add_other w g t b : b <> h_store g -> w_get (g_add w g t) b = w_get w b.
+Proof. intros H. unfold g_add. rewrite w_get_set. now destruct (Nat.eqb_spec b (h_store g)). Qed.
+Lemma g_remove_other w g p b : b <> h_store g -> w_get (g_remove w g p) b = w_get w b.
+Proof. intros H. unfold g_remove. rewrite w_get_set. now destruct (Nat.eqb_spec b (h_store g)). Qed.
+Lemma fold_add_other g b l : forall w, b <> h_store g -> w_get (fold_left (fun w t => g_add w g t) l w) b = w_get w b.
+Proof. induction l as [|t r IH]; simpl; intros w H; auto. rewrite IH by auto. now apply g_add_other. Qed.
+Lemma fold_remove_other g b l : forall w,
+  b <> h_store g -> w_get (fold_left (fun w t => g_remove w g (pat_of t)) l w) b = w_get w b.
+Proof. induction l as [|t r IH]; simpl; intros w H; auto. rewrite IH by auto. now apply g_remove_other. Qed.
+Lemma g_addN_other g b qs : forall w, b <> h_store g -> w_get (g_addN w g qs) b = w_get w b.
+Proof.
+  unfold g_addN. induction qs as [|q r IH]; simpl; intros w H; auto. rewrite IH by auto.
+  destruct (N.eqb (h_tok (snd q)) (h_tok g)); auto. rewrite w_get_set. now destruct (Nat.eqb_spec b (h_store g)).
+Qed.
+
 (* ---------- one step, then whole histories *)
 Definition tok_ok (c : case) : Prop :=
   forall g h, In g (case_handles c) -> In h (case_handles c) -> h_tok g = h_tok h -> h_cid g = h_cid h.
 
 Lemma wfb_tok_ok c : wfb c = true -> tok_ok c.
 Proof.
-  unfold wfb. intros H g h Hg Hh E. rewrite forallb_forall in H. specialize (H g Hg).
+  unfold wfb. intros H. apply andb_true_iff in H. destruct H as [H _]. intros g h Hg Hh E.
+  rewrite forallb_forall in H. specialize (H g Hg).
   rewrite forallb_forall in H. specialize (H h Hh). apply N.eqb_eq in E. rewrite E in H. simpl in H.
   now apply N.eqb_eq.
 Qed.
@@ -388,35 +477,62 @@ Lemma Rel_isub c w S g h :
   Rel c w S -> Rel c (g_isub w g h) (sp_remove_all (scid c g) (sp_content S (scid c h)) S).
 Proof. apply Rel_isub_fold. Qed.
 
-Lemma g_step_ok c w S o :
+Definition in_scope (nx : nat) (o : gop) : Prop := forall g, In g (op_handles o) -> h_store g < nx.
+
+Lemma g_step_ok c w nx S o :
   tok_ok c -> incl (op_handles o) (case_handles c) -> Rel c w S ->
-  Rel c (fst (fst (g_step w o))) (spec_step c S o) /\ snd (fst (g_step w o)) = false /\
+  2 <= nx -> Fresh w nx -> in_scope nx o ->
+  Rel c (fst (fst (g_step w nx o))) (spec_step c nx S o) /\ snd (fst (g_step w nx o)) = false /\
+  Fresh (fst (fst (g_step w nx o))) (nx_next o nx) /\
   match o with
-  | GBin b g h => enum_of (snd (g_step w o)) (spec_bin b (sp_content S (scid c g)) (sp_content S (scid c h)))
-  | _ => snd (g_step w o) = []
+  | GBin b g h => enum_of (snd (g_step w nx o)) (spec_bin b (sp_content S (scid c g)) (sp_content S (scid c h)))
+  | _ => snd (g_step w nx o) = []
   end.
 Proof.
-  intros Htok Hinc HR. destruct o as [g t|g qs|g p|g t|g h|g h|b g h]; cbn [g_step fst snd spec_step].
-  - split; [now apply Rel_g_add|auto].
-  - split; [|auto]. apply Rel_addN; auto. intros q Hq E. apply Htok; auto; apply Hinc; simpl; auto.
-    right. now apply in_map.
-  - split; [now apply Rel_g_remove|auto].
-  - split; [|auto]. unfold g_set. now apply Rel_g_add, Rel_g_remove.
-  - split; [now apply Rel_iadd|auto].
-  - split; [now apply Rel_isub|auto].
-  - split; [exact HR|split; auto]. now apply g_bin_ok.
+  intros Htok Hinc HR Hnx HF Hsc.
+  assert (Hg : forall g, In g (op_handles o) -> forall b, nx <= b -> b <> h_store g).
+  { intros g Hin b Hb. specialize (Hsc g Hin). lia. }
+  destruct o as [g t|g qs|g p|g t|g h|g h|b g h]; cbn [g_step fst snd spec_step nx_next].
+  - split; [now apply Rel_g_add|split; [auto|split; [|auto]]].
+    intros b Hb. rewrite g_add_other; auto. apply (Hg g); simpl; auto.
+  - split; [|split; [auto|split; [|auto]]].
+    + apply Rel_addN; auto. intros q Hq E. apply Htok; auto; apply Hinc; simpl; auto. right. now apply in_map.
+    + intros b Hb. rewrite g_addN_other; auto. apply (Hg g); simpl; auto.
+  - split; [now apply Rel_g_remove|split; [auto|split; [|auto]]].
+    intros b Hb. rewrite g_remove_other; auto. apply (Hg g); simpl; auto.
+  - split; [|split; [auto|split; [|auto]]].
+    + unfold g_set. now apply Rel_g_add, Rel_g_remove.
+    + intros b Hb. unfold g_set. rewrite g_add_other, g_remove_other; auto; apply (Hg g); simpl; auto.
+  - split; [now apply Rel_iadd|split; [auto|split; [|auto]]].
+    intros b Hb. unfold g_iadd. rewrite fold_add_other; auto. apply (Hg g); simpl; auto.
+  - split; [now apply Rel_isub|split; [auto|split; [|auto]]].
+    intros b Hb. unfold g_isub. rewrite fold_remove_other; auto. apply (Hg g); simpl; auto.
+  - split; [now apply Rel_bin|split; [auto|split]].
+    + intros b' Hb. rewrite w_get_set. destruct (Nat.eqb_spec b' nx); [lia|]. apply HF. lia.
+    + now apply g_bin_ok.
 Qed.
 
-Theorem spec_run_model c : tok_ok c -> forall ops w S,
-  incl (flat_map (fun ot => op_handles (fst ot)) ops) (case_handles c) ->
-  Rel c w S ->
-  spec_run c S ops (g_run (c_handles c) w ops) = true.
+Lemma scopedb_cons nx o pr r :
+  scopedb nx ((o, pr) :: r) = true -> in_scope nx o /\ scopedb (nx_next o nx) r = true.
 Proof.
-  intros Htok. induction ops as [|[o probe] r IH]; intros w S Hinc HR; [reflexivity|].
+  cbn [scopedb]. intros H. apply andb_true_iff in H. destruct H as [H1 H2]. split; auto.
+  intros g Hg. rewrite forallb_forall in H1. specialize (H1 g Hg). now apply Nat.ltb_lt.
+Qed.
+
+Lemma nx_next_ge o nx : 2 <= nx -> 2 <= nx_next o nx.
+Proof. destruct o; simpl; lia. Qed.
+
+Theorem spec_run_model c : tok_ok c -> forall ops w nx S,
+  incl (flat_map (fun ot => op_handles (fst ot)) ops) (case_handles c) ->
+  Rel c w S -> 2 <= nx -> Fresh w nx -> scopedb nx ops = true ->
+  spec_run c nx S ops (g_run (c_handles c) w nx ops) = true.
+Proof.
+  intros Htok. induction ops as [|[o probe] r IH]; intros w nx S Hinc HR Hnx HF Hsc; [reflexivity|].
   cbn [flat_map fst] in Hinc. apply incl_app_inv in Hinc. destruct Hinc as [Hi1 Hi2].
-  destruct (g_step_ok c w S o Htok Hi1 HR) as (R1 & R2 & R3).
-  cbn [g_run]. destruct (g_step w o) as [[w' raised] res] eqn:E. cbn [fst snd] in R1, R2, R3.
-  cbn [spec_run]. apply andb_true_iff. split; [|now apply IH].
+  apply scopedb_cons in Hsc. destruct Hsc as [Hs1 Hs2].
+  destruct (g_step_ok c w nx S o Htok Hi1 HR Hnx HF Hs1) as (R1 & R2 & RF & R3).
+  cbn [g_run]. destruct (g_step w nx o) as [[w' raised] res] eqn:E. cbn [fst snd] in R1, R2, RF, R3.
+  cbn [spec_run]. apply andb_true_iff. split; [|apply IH; auto; now apply nx_next_ge].
   unfold sobs_ok. rewrite !andb_true_iff. split; [split|].
   - now rewrite R2.
   - destruct o; try (now rewrite R3). now apply tenum.
@@ -430,36 +546,44 @@ Proof.
   - now apply wfb_tok_ok.
   - unfold case_handles. apply incl_appr, incl_refl.
   - apply Rel_init.
+  - apply Fresh_init.
+  - unfold wfb in Hwf. apply andb_true_iff in Hwf. tauto.
 Qed.
 
 (* ---------- the property as a statement about whole histories *)
-Fixpoint w_run (w : world) (ops : list (gop * triple)) : world :=
-  match ops with [] => w | (o, _) :: r => w_run (fst (fst (g_step w o))) r end.
-Fixpoint s_run (c : case) (S : qset) (ops : list (gop * triple)) : qset :=
-  match ops with [] => S | (o, _) :: r => s_run c (spec_step c S o) r end.
+Fixpoint w_run (w : world) (nx : nat) (ops : list (gop * triple)) : world :=
+  match ops with [] => w | (o, _) :: r => w_run (fst (fst (g_step w nx o))) (nx_next o nx) r end.
+Fixpoint s_run (c : case) (nx : nat) (S : qset) (ops : list (gop * triple)) : qset :=
+  match ops with [] => S | (o, _) :: r => s_run c (nx_next o nx) (spec_step c nx S o) r end.
 
-Theorem history_refines c : tok_ok c -> forall ops w S,
+Theorem history_refines c : tok_ok c -> forall ops w nx S,
   incl (flat_map (fun ot => op_handles (fst ot)) ops) (case_handles c) ->
-  Rel c w S -> Rel c (w_run w ops) (s_run c S ops).
+  Rel c w S -> 2 <= nx -> Fresh w nx -> scopedb nx ops = true ->
+  Rel c (w_run w nx ops) (s_run c nx S ops).
 Proof.
-  intros Htok. induction ops as [|[o probe] r IH]; intros w S Hinc HR; [exact HR|].
+  intros Htok. induction ops as [|[o probe] r IH]; intros w nx S Hinc HR Hnx HF Hsc; [exact HR|].
   cbn [flat_map fst] in Hinc. apply incl_app_inv in Hinc. destruct Hinc as [Hi1 Hi2].
-  destruct (g_step_ok c w S o Htok Hi1 HR) as (R1 & _). cbn [w_run s_run]. now apply IH.
+  apply scopedb_cons in Hsc. destruct Hsc as [Hs1 Hs2].
+  destruct (g_step_ok c w nx S o Htok Hi1 HR Hnx HF Hs1) as (R1 & _ & RF & _). cbn [w_run s_run].
+  apply IH; auto. now apply nx_next_ge.
 Qed.
 
-(* after any history every graph of every store is exactly the set the
-   mathematical history prescribes, under every pattern *)
+(* after any history every graph of every store - the results of the binary
+   operators included - is exactly the set the mathematical history prescribes,
+   under every pattern *)
 Theorem history_exact c ops :
   wfb c = true -> c_ops c = ops ->
   forall g p,
-    enum_of (g_triples (w_run (w_init c) ops) g p)
-            (filter (matches p) (sp_content (s_run c [] ops) (scid c g))).
+    enum_of (g_triples (w_run (w_init c) 2 ops) g p)
+            (filter (matches p) (sp_content (s_run c 2 [] ops) (scid c g))).
 Proof.
   intros Hwf <- g p. apply g_triples_enum.
   apply history_refines; auto.
   - now apply wfb_tok_ok.
   - unfold case_handles. apply incl_appr, incl_refl.
   - apply Rel_init.
+  - apply Fresh_init.
+  - unfold wfb in Hwf. apply andb_true_iff in Hwf. tauto.
 Qed.
 
 (* ---------- what the boolean checker says, in Prop *)
@@ -526,15 +650,15 @@ Qed.
 
 (* the corpus witness of the former finding F10b: `g -= g` on a SimpleMemory store *)
 Definition f10b_witness : case :=
-  {| c_simple0 := true; c_simple1 := true; c_handles := [(false, 1, 1)%N];
-     c_ops := [(GAdd (false, 1, 1)%N (1, 3, 5)%N, (1, 3, 5)%N);
-               (GAdd (false, 1, 1)%N (2, 3, 5)%N, (1, 3, 5)%N);
-               (GISub (false, 1, 1)%N (false, 1, 1)%N, (1, 3, 5)%N)] |}.
+  {| c_simple0 := true; c_simple1 := true; c_handles := [(0%nat, 1%N, 1%N)];
+     c_ops := [(GAdd (0%nat, 1%N, 1%N) (1, 3, 5)%N, (1, 3, 5)%N);
+               (GAdd (0%nat, 1%N, 1%N) (2, 3, 5)%N, (1, 3, 5)%N);
+               (GISub (0%nat, 1%N, 1%N) (0%nat, 1%N, 1%N), (1, 3, 5)%N)] |}.
 
 (* historical behaviour (before the repair): the step after the first removal raised
    and one triple only was removed; the repaired model empties the graph *)
 Lemma hist_simple_isub_alias_refuted :
-  let g := (false, 1, 1)%N in
+  let g := (0%nat, 1%N, 1%N) in
   let w := g_add (g_add (w_init f10b_witness) g (1, 3, 5)%N) g (2, 3, 5)%N in
   snd (g_isub_hist w g g) = true /\ g_triples (fst (g_isub_hist w g g)) g all_pat = [(2, 3, 5)%N]
   /\ g_triples (g_isub w g g) g all_pat = [].
